@@ -27,6 +27,13 @@ func c19(p *core.Prog, r *core.Report) {
 	r.Rule("C19-R2", "E6 guards", 5, "idle sweep closes exactly under its predicate")
 	r.Rule("C19-R3", "E6 guards/phi", 3, "health loop: close at FailuresToClose consecutive failures, reset on success")
 	r.Rule("C19-R4", "E4c self-join", 1, "no goroutine waits for its own exit")
+	// "no pending calls" on a relay connection is its pending counter: a
+	// counter that is not brought back to zero keeps the connection from ever
+	// being swept (shared with C09-R3)
+	r.Rule("C19-R5", "E6 who-may-call/paths", 6, "relay pending count (input of the idle predicate) is balanced (shared with C09)")
+	r.Alias("C09-R3", "C19-R5")
+	c09Pending(p, r)
+	r.Alias("C09-R3", "")
 	c19Activity(p, r)
 	c19Sweep(p, r)
 	c19Health(p, r)
@@ -69,6 +76,46 @@ func c19Activity(p *core.Prog, r *core.Report) {
 			}
 			got, have := table[b]
 			r.Check(have && got == fmt.Sprint(want), "C19-R1", fname(f), "isMessageTypeCall("+name+")", p.Pos(f.Pos()), "= "+got, fmt.Sprintf("predicate says %s (covered=%v), the property says %v", got, have, want))
+		}
+	}
+	// with health checks enabled every active connection is probed, whichever
+	// side opened it: assuming enabled(), no return of callOnActive avoids
+	// starting the health-check goroutine
+	if f := mustFunc(p, r, "", "Connection", "callOnActive"); f != nil {
+		isStart := func(i ssa.Instruction) bool {
+			g, ok := i.(*ssa.Go)
+			if !ok {
+				return false
+			}
+			for _, t := range p.Callees(g) {
+				if t.Name() == "healthCheck" {
+					return true
+				}
+			}
+			return false
+		}
+		enabledTrue := func(from, to *ssa.BasicBlock) bool {
+			if len(from.Succs) != 2 || from.Succs[0] == from.Succs[1] {
+				return false
+			}
+			ifi, ok := from.Instrs[len(from.Instrs)-1].(*ssa.If)
+			if !ok || callResult(ifi.Cond, "HealthCheckOptions.enabled") == nil {
+				return false
+			}
+			return to == from.Succs[1]
+		}
+		n := 0
+		core.EachInstr(f, func(i ssa.Instruction) {
+			if isStart(i) {
+				n++
+			}
+		})
+		if n == 0 {
+			r.Errorf("Connection.callOnActive: no `go c.healthCheck` found")
+		} else {
+			res := core.ReachAvoiding(f, nil, core.IsReturn, isStart, enabledTrue)
+			r.Check(!res.Found, "C19-R3", fname(f), "enabled health checks run on every active connection", p.Pos(f.Pos()),
+				"assuming HealthChecks.enabled() no return avoids `go healthCheck`", "health checks are enabled but some connections (another condition decides: direction, state) are never probed: an unresponsive peer on them is never detected: "+p.TrailString(res))
 		}
 	}
 	// the accessors the sweep reads return their own timestamp: every atomic
